@@ -136,7 +136,7 @@ def only_self(k, x, y, z):
 # ---------------------------------------------------------------------------------------------
 
 ALPHA = ["a", "b", "X1", "X10", "max", "_t"]
-ALPHA_WIDE = ["a", "b", "X1", "X10", "max", "_t", "n0", "zz", "X2"]
+ALPHA_WIDE = ["a", "b", "X1", "X10", "max", "_t", "n0", "zz", "X2", "a$b", "len$", "$", "__n", "ab", "aX1"]     # pycparser accepts `$` in identifiers
 
 
 def triples(alpha, cap):
@@ -387,17 +387,21 @@ def search(ctx, B, failing, stats):
             todo3 = [("x", v) for v in xs] + [("y", v) for v in ys] + [("z", v) for v in zs]
             rng.shuffle(todo3)
             for which, v in todo3:
-                _ = (b3.bound_str, b3.bound_triple, MwpBound.bound_poly(b3, True))          # a read must not freeze anything
+                _ = (b3.bound_str, b3.bound_triple, MwpBound.bound_poly(b3, True), str(b3), b3.to_dict() if hasattr(b3, "to_dict") else None)   # a read must not freeze anything
                 if rng.random() < 0.5:
                     getattr(b3, which).add(v)
                 else:
                     b3.append({"x": "m", "y": "w", "z": "p"}[which], v)
-            if seqs(b3.bound_triple) != want_t or b3.bound_str != bs or MwpBound.bound_poly(b3, False) != texts["normal"] or not (b3 == b):
+            if seqs(b3.bound_triple) != want_t or b3.bound_str != bs or MwpBound.bound_poly(b3, False) != texts["normal"] or not (b3 == b) or str(b3) != texts["normal"]:
                 fail("history", "history: a bound built with reads in between / by adding to the lists directly differs from the same bound built by append",
                      dict(inp, order=[list(t) for t in todo3]), {"triple": want_t, "text": bs, "poly": texts["normal"]},
                      {"triple": seqs(b3.bound_triple), "text": b3.bound_str, "poly": MwpBound.bound_poly(b3, False)})
             # significant filter: keys k over the names, names that extend / are a prefix of them, + one outsider
-            keys = list(dict.fromkeys(names[:3] + [n + "0" for n in names[:2]] + [n[:-1] for n in names[:2] if len(n) > 1] + ["q"]))
+            glue = [u + v for u, v in ((xs[:1] + [""])[:1] and [((xs[:1] or [""])[0], (ys[:1] or [""])[0]), ((xs[:1] or [""])[0], (zs[:1] or [""])[0]),
+                                                                           ((ys[:1] or [""])[0], (zs[:1] or [""])[0])])]
+            glue.append("".join((l[:1] or [""])[0] for l in (xs, ys, zs)))
+            keys = list(dict.fromkeys(names[:3] + [n + "0" for n in names[:2]] + [n[:-1] for n in names[:2] if len(n) > 1] +
+                                      [g for g in glue if g] + ["q"]))      # names glued across the three lists, too
             bd = Bound({k: bs for k in keys})
             for compact in (False, True):
                 ev += 1
